@@ -1,3 +1,5 @@
+//! `va c18 [--tier quick|thorough] [--replay <file>]` — check C18 (async API: no lost wakeups,
+//! cancellation-safe, clean teardown) on the real `quinn` crate under engine E4.
 #[macro_use]
 mod scen;
 mod c18;
